@@ -71,3 +71,38 @@ func thmTranslateConcat(a, b []byte) {
 	//@ assert forall q int :: 0 <= q && q < len(t) ==> t[q] == u[q]
 	_, _ = t, u
 }
+
+//@ theorem C12.strand
+//@   props C12
+//@   requires k >= 1 && 0 <= t && t + k <= len(seq) && 0 <= m && m < k
+//@   requires forall j int :: 0 <= j && j < len(seq) ==> isBase10(seq[j])
+//@   use-lemma lexAnti(seq, t, rc1, len(seq) - t - k, rc2, t, r, len(seq) - k - t, k)
+//@   loop 1
+//@     invariant i == K && (i > t ==> x1 == Z1[t][m])
+//@   loop 2
+//@     invariant j == K && (j > len(seq) - k - t ==> x2 == Z2[len(seq) - k - t][m])
+// A sequence and its reverse complement yield the same canonical k-mers in
+// opposite order: byte m of item t of seq equals byte m of item n-k-t of the
+// reverse complement (t, m arbitrary: the items are equal byte for byte).
+func thmStrand(seq []byte, k, t, m int) {
+	r := ReverseComplement(nil, seq)
+	var x1, x2 byte
+	i := 0
+	for kmer := range CanonicalSubsequences(seq, k) {
+		if i == t {
+			x1 = kmer[m]
+		}
+		i++
+	}
+	j := 0
+	for kmer := range CanonicalSubsequences(r, k) {
+		if j == len(seq)-k-t {
+			x2 = kmer[m]
+		}
+		j++
+	}
+	//@ assert x1 == Z1[t][m] && x2 == Z2[len(seq) - k - t][m]
+	//@ assert forall q int :: 0 <= q && q < len(seq) ==> rc2[q] == seq[q]
+	//@ assert x1 == x2
+	_, _ = x1, x2
+}
